@@ -1,7 +1,7 @@
 """C12 - event filters select exactly the matching subsequence."""
 from __future__ import annotations
 
-from .. import pipeline, sym
+from .. import normal, pipeline, sym
 from ..model import AnalysisError, Repo
 from ..report import Run
 from ..sym import T, const, param
@@ -74,7 +74,7 @@ def analyse_listing(repo: Repo, run: Run, interp, name: str):
         raise AnalysisError(f"{name}: unsupported construct: {rec.notes[0]}")
     if rec.is_generator:
         raise AnalysisError(f"{name} became a generator function; pipeline form not recognised")
-    ret = rec.return_term()
+    ret = normal.accum_to_comp(rec, rec.return_term())
     src, stages = pipeline.parse(ret)
     # ---- R1 shape
     ok_src = (src.op == "call" and src.a[0].op == "attr" and src.a[0].a[1] == "parse"
@@ -131,18 +131,21 @@ def analyse_listing(repo: Repo, run: Run, interp, name: str):
         if s.kind != "filter":
             continue
         fnt = s.fn
-        body = pipeline.predicate_body(fnt)
-        if body is None and fnt.op == "attr" and fnt.a[0] == SELF and fnt.a[1] in ci.methods:
-            # a bound method used as the predicate: its body with the element as its argument
-            mfn = ci.methods[fnt.a[1]]
-            if len(mfn.args.args) == 2:
-                mrec = interp.run(ci.module, mfn, {mfn.args.args[1].arg: T("bound", ("elem", 0))}, self_cls=ci)
-                if not mrec.notes:
-                    body = mrec.return_term()
-                    relevant.extend(e for e in mrec.effects if sym.root_of(e.path if e.path is not None else e.base) == SELF)
+        eff = []
+        body = pipeline.resolve_predicate(repo, interp, ci, fnt, eff)
+        relevant.extend(e for e in eff if sym.root_of(e.path if e.path is not None else e.base) == SELF)
         if body is None:
             raise AnalysisError(f"{name}: predicate is not a lambda / inlinable method: {sym.pretty(fnt)[:80]}")
         nb = N(body)
+        # (read off the normal form: there the element is a plain bound variable, not a term that embeds the source pipeline)
+        reads = sorted({x.a[1] for x in sym.walk(nb) if x.op == "attr" and x.a[0] == SELF and not str(x.a[1]).startswith("filter_")})
+        if reads:
+            # the property's predicates are functions of the element and the filter settings only
+            run.ob("R2", MOD, name, f"stage predicate reads only the element and the filter settings", False,
+                   f"a filter stage of {name} decides by self.{', self.'.join(reads)} (`{sym.pretty(nb)[:120]}`): whether an element is "
+                   f"listed then depends on parser state, not only on the element and the filter the caller set",
+                   line=fn.lineno, witness="an element whose own fields match the filter while the table entry is missing or differs")
+            continue
         if not pipeline.in_language(nb):
             if relevant:
                 continue        # already reported by R3: the predicate has side effects
